@@ -316,3 +316,46 @@ def _reg_meas():
 
 
 _reg_meas()
+
+
+# ----- the three measurement simulators on a one-row trajectory ------------------------------------------
+# The generators draw `error_sd * rng.randn(n, 3)`.  They are called UNMODIFIED with a RandomState whose
+# randn returns the symbolic row (n0, n1, n2) and with the symbolic error_sd `s`: the injected error is s*n,
+# "noise switched off" is the instance s = 0.  (They take no lever arm / body rates: the simulated value is
+# the quantity at the IMU.)
+
+NOISE_P = [('s', (0.0, 3.0)), ('n0', (-2.0, 2.0)), ('n1', (-2.0, 2.0)), ('n2', (-2.0, 2.0))]
+
+
+def _sim(kind):
+    def run(V, A):
+        vals = [V(c) for c in COLS]
+        concrete = isinstance(vals[0], float)
+        data = np.array([vals], dtype=float) if concrete else sym._obj([vals])
+        traj = pd.DataFrame(data=data, index=[TIME], columns=COLS)
+        noise = [V('n0'), V('n1'), V('n2')]
+        calls = []
+
+        class FixedNoise(np.random.RandomState):
+            def randn(self, *shape):
+                if shape != (1, 3):
+                    raise TraceError("simulator: unexpected randn shape")
+                calls.append(shape)
+                return np.array([noise], dtype=float) if concrete else sym._obj([noise])
+
+        rng = FixedNoise(0)
+        if kind == 'pos':
+            df, cols = sim.generate_position_measurements(traj, V('s'), rng), ['lat', 'lon', 'alt']
+        elif kind == 'ned':
+            df, cols = sim.generate_ned_velocity_measurements(traj, V('s'), rng), ['VN', 'VE', 'VD']
+        else:
+            df, cols = sim.generate_body_velocity_measurements(traj, V('s'), rng), ['VX', 'VY', 'VZ']
+        if len(calls) != 1 or list(df.columns) != cols or list(df.index) != [TIME]:
+            raise TraceError("simulator: unexpected noise draws / frame layout")
+        return dict(zip(cols, df.values[0]))
+    return run
+
+
+traced('ErrState', 'sim_pos', PVA + NOISE_P, fast=('s',))(_sim('pos'))
+traced('ErrState', 'sim_ned', PVA + NOISE_P, fast=('s',))(_sim('ned'))
+traced('ErrState', 'sim_body', PVA + NOISE_P, fast=('s',))(_sim('body'))
